@@ -1,6 +1,6 @@
 (** C08 - Normalize is the sorted set; Invert is its complement within [min,max].
     Statements only; proofs in Proofs/NormProofs.v and Proofs/FrameSetProofs.v. *)
-From GFS Require Import Base Dec Ranges FrameSet SpecRanges SpecRange RangeBasics AppendProofs NormProofs FrameSetProofs.
+From GFS Require Import Base Dec Ranges FrameSet SpecRanges SpecRange RangeBasics AppendProofs NormProofs FrameSetProofs CompressProofs StringProofs.
 Local Open Scope Z_scope.
 
 Theorem normalize_is_sorted_set : forall s f, new_frameset s = Ok f -> fs_frames f <> [] ->
@@ -28,11 +28,46 @@ Theorem normalize_depends_on_members_only : forall invert s1 f1 s2 f2,
 Proof. exact normalize_members_only. Qed.
 Print Assumptions normalize_depends_on_members_only.
 
-(** STILL MISSING (full statements, not yet proved):
-      normalize_string_reparses : ... new_frameset (fs_range (fs_normalize f)) = Ok g /\ fs_frames g = fs_frames (fs_normalize f)
-      inverted_string_reparses, inverted_padded_same_members.
-    They need the itoa/atoi round trip through the range regexes; until proved,
-    the correspondence/oracle run re-parses every produced string. *)
+(** the range strings they produce re-parse to those same lists.
+    [span_ok l]: differences of members fit a Go int (a step is such a
+    difference).  It is needed: [span_needed] in Proofs/StringProofs.v exhibits
+    "-9223372036854775808,9223372036854775807", whose normalized form would print
+    a step of 2^64-1 (in Go the scan over Min..Max would not even terminate). *)
+Theorem normalize_string_reparses : forall s f, new_frameset s = Ok f -> fs_frames f <> [] ->
+  span_ok (fs_frames f) ->
+  exists g, new_frameset (fs_range (fs_normalize f)) = Ok g /\ fs_frames g = fs_frames (fs_normalize f).
+Proof. exact StringProofs.normalize_string_reparses. Qed.
+Print Assumptions normalize_string_reparses.
+
+Theorem inverted_string_reparses : forall s f, new_frameset s = Ok f ->
+  fs_frames (fs_invert f) <> [] -> span_ok (fs_frames f) ->
+  exists g, new_frameset (fs_range (fs_invert f)) = Ok g /\ fs_frames g = fs_frames (fs_invert f).
+Proof. exact StringProofs.inverted_string_reparses. Qed.
+Print Assumptions inverted_string_reparses.
+
+(** an empty complement gives the empty range string *)
+Theorem inverted_empty : forall s f, new_frameset s = Ok f -> fs_frames f <> [] ->
+  fs_frames (fs_invert f) = [] -> fs_range (fs_invert f) = [].
+Proof. exact inverted_empty_string. Qed.
+Print Assumptions inverted_empty.
+
+(** a padded inverted range has the same members (it differs by leading zeros only: C11) *)
+Theorem inverted_padded_members : forall s f w, new_frameset s = Ok f ->
+  fs_frames (fs_invert f) <> [] -> span_ok (fs_frames f) ->
+  exists g, new_frameset (fs_inverted_frame_range f w) = Ok g /\ fs_frames g = fs_frames (fs_invert f).
+Proof. exact inverted_padded_same_members. Qed.
+Print Assumptions inverted_padded_members.
+
+(** Normalize is idempotent at the level of the produced string *)
+Theorem normalize_idempotent : forall s f g, new_frameset s = Ok f -> fs_frames f <> [] ->
+  new_frameset (fs_range (fs_normalize f)) = Ok g ->
+  fs_range (fs_normalize g) = fs_range (fs_normalize f).
+Proof. exact normalize_idempotent_string. Qed.
+Print Assumptions normalize_idempotent.
+
+(** the size guard is satisfiable by every realistic frame set *)
+Example span_ok_example : span_ok [1; 4; 5; 7; 10; 20]%Z.
+Proof. apply small_span_ok. repeat constructor; unfold CompressProofs.small; lia. Qed.
 
 Example normalize_example :
   match new_frameset (s2b "10-1x3,5,5,20") with
